@@ -269,7 +269,14 @@ async fn run_raw(stim: &Value, log: &Rec) {
             _ => skipped += 1,
         }
     }
-    let body = Body::new(http_body_util::Full::new(Bytes::from(json_bytes(&raw["body"]))));
+    // body: given verbatim, or one frame built from msg / flag / comp (payload compressed with `comp` when flagged)
+    let body_bytes = if raw["body"].is_array() { json_bytes(&raw["body"]) } else {
+        let msg = json_bytes(&raw["msg"]);
+        let flag = raw["flag"].as_u64().unwrap_or(0) as u8;
+        let payload = if flag == 1 { crate::labs::framing::compress_with(raw["comp"].as_str().unwrap_or(""), &msg) } else { msg };
+        crate::labs::framing::frame(flag, &payload)
+    };
+    let body = Body::new(http_body_util::Full::new(Bytes::from(body_bytes)));
     let req = b.body(body).expect("raw request");
     log.ev(json!({"e":"raw_sent","skipped":skipped,"list":headers_json(req.headers())}));
     let resp = stack.ready().await.unwrap().call(req).await;
